@@ -64,6 +64,9 @@ struct Env {
     certs: Certs,
     client: Endpoint,
     server: Endpoint,
+    /// handshakes on the shared endpoints are made one at a time, so that the connection a case
+    /// accepts is the one it initiated
+    hs: futures_util::lock::Mutex<()>,
 }
 
 impl Env {
@@ -78,23 +81,34 @@ impl Env {
             certs,
             client,
             server,
+            hs: futures_util::lock::Mutex::new(()),
         })
     }
 
-    async fn shutdown(self) -> Certs {
+    async fn shutdown(self) {
         let Env {
-            certs,
+            certs: _,
             client,
             server,
+            hs: _,
         } = self;
         // a stuck shutdown (mutated tree) must not stop the harness
         let _ = with_watchdog(Duration::from_secs(5), client.shutdown()).await;
         let _ = with_watchdog(Duration::from_secs(5), server.shutdown()).await;
-        certs
     }
 }
 
 type P = Probe<String>;
+
+/// problems of one case, reported by the caller in case order
+#[derive(Default)]
+struct Problems(Vec<(String, Value, String)>);
+
+impl Problems {
+    fn problem(&mut self, ty: &str, sig: Value, desc: String, _case: &Value, _step: usize) {
+        self.0.push((ty.to_string(), sig, desc));
+    }
+}
 
 /// poll with panics of the code under test turned into a result
 fn pc(p: &mut P) -> Poll<String> {
@@ -291,8 +305,8 @@ struct Outcome {
     forced: Option<String>,
 }
 
-async fn drive(probes: &mut [(String, P)], out: &mut [Outcome], polled: &mut [usize]) {
-    let deadline = Instant::now() + WATCHDOG;
+async fn drive(probes: &mut [(String, P)], out: &mut [Outcome], polled: &mut [usize], wd: Duration) {
+    let deadline = Instant::now() + wd;
     loop {
         let mut open = 0;
         for (i, (_, p)) in probes.iter_mut().enumerate() {
@@ -327,50 +341,100 @@ async fn drive(probes: &mut [(String, P)], out: &mut [Outcome], polled: &mut [us
     }
 }
 
-fn judge(case: &Value, close: &str, side: &str, out: &[Outcome], rep: &mut Report) -> Value {
+fn judge(case: &Value, close: &str, side: &str, out: &[Outcome], rep: &mut Problems) -> Value {
+    let dev = case["dev"].as_str().unwrap_or("none");
+    let wd = watchdog(case);
+    let predicted = |k: &str| -> Option<String> {
+        case["expect"].as_array().and_then(|a| {
+            a.iter()
+                .find(|e| e[0].as_str() == Some(k))
+                .and_then(|e| e[1].as_str().map(String::from))
+        })
+    };
     let mut obs = vec![];
     for o in out {
         obs.push(json!({"kind": o.kind, "pending": o.first_pending, "wakes": o.wakes,
                         "sync_wakes": o.sync_wakes, "result": o.result, "forced": o.forced}));
-        if !o.first_pending {
-            rep.problem(
+        let pred = predicted(&o.kind);
+        // ---- the property's own predicate on the real observation --------------------------
+        let class = if !o.first_pending {
+            match &o.result {
+                Some(r) if r.starts_with("panic:") => "panic",
+                _ => "not-blocked",
+            }
+        } else {
+            match &o.result {
+                None => "stranded",
+                Some(r) if r.starts_with("panic:") => "panic",
+                Some(r) if expected_ok(&o.kind, r) => class_of(&o.kind),
+                Some(_) => "no-error",
+            }
+        };
+        match class {
+            "not-blocked" => rep.problem(
                 "mismatch",
                 json!({"site": "quic-wakers", "what": "not-blocked", "kind": o.kind}),
-                format!(
-                    "future {} was expected to be Pending at its first poll but returned {:?}",
-                    o.kind, o.result
-                ),
+                format!("future {} was expected to be Pending at its first poll but returned {:?}", o.kind, o.result),
                 case,
                 0,
-            );
-            continue;
-        }
-        match &o.result {
-            None => rep.problem(
+            ),
+            "stranded" => rep.problem(
                 "hang",
-                json!({"site": "quic-wakers", "what": "stranded", "kind": o.kind, "close": close}),
+                json!({"site": "quic-wakers", "what": "stranded", "kind": o.kind, "close": close, "dev": dev}),
                 format!(
-                    "{side} side, {close} close: the blocked {} future was woken {} times and never \
+                    "{side} side, {close} close, blocked {:?}: the blocked {} future was woken {} times and never \
                      completed within {:?}; a forced poll afterwards says: {:?}",
-                    o.kind, o.wakes, WATCHDOG, o.forced
+                    case["blocked"], o.kind, o.wakes, wd, o.forced
                 ),
                 case,
                 0,
             ),
-            Some(r) if !expected_ok(&o.kind, r) => rep.problem(
-                "contract",
-                json!({"site": "quic-wakers", "what": "no-error", "kind": o.kind, "close": close}),
-                format!("{side} side, {close} close: the blocked {} future resolved to {r:?} instead of an error", o.kind),
+            "panic" => rep.problem(
+                "panic",
+                json!({"site": "quic-wakers", "what": "panic", "kind": o.kind, "dev": dev}),
+                format!("{side} side, blocked {:?}: polling the {} future panicked: {:?}", case["blocked"], o.kind, o.result),
                 case,
                 0,
             ),
-            Some(_) => {}
+            "no-error" => rep.problem(
+                "contract",
+                json!({"site": "quic-wakers", "what": "no-error", "kind": o.kind, "close": close, "dev": dev}),
+                format!("{side} side, {close} close: the blocked {} future resolved to {:?} instead of an error", o.kind, o.result),
+                case,
+                0,
+            ),
+            _ => {}
+        }
+        // ---- comparison with the model's prediction (drift, never an alarm) -----------------
+        if let Some(p) = pred {
+            if class != "not-blocked" && p != class {
+                rep.problem(
+                    "mismatch",
+                    json!({"site": "quic-wakers", "what": "prediction", "kind": o.kind, "model": p, "impl": class}),
+                    format!("{side} side, {close} close, blocked {:?}: model predicts {p} for {}, implementation: {class} ({:?})",
+                            case["blocked"], o.kind, o.result),
+                    case,
+                    0,
+                );
+            }
         }
     }
     json!(obs)
 }
 
-async fn run_conn_case(env: &mut Option<Env>, case: &Value, rep: &mut Report) -> Result<Value, String> {
+fn class_of(kind: &str) -> &'static str {
+    match kind {
+        "wait_incoming" => "none",
+        "closed" | "closed_b" => "closed",
+        _ => "err",
+    }
+}
+
+fn watchdog(case: &Value) -> Duration {
+    case["watchdog_ms"].as_u64().map(Duration::from_millis).unwrap_or(WATCHDOG)
+}
+
+async fn run_conn_case(shared: &Env, case: &Value, rep: &mut Problems) -> Result<Value, String> {
     let close = case["close"].as_str().unwrap_or("local").to_string();
     let side = case["side"].as_str().unwrap_or("client").to_string();
     let kinds: Vec<String> = case["blocked"]
@@ -378,16 +442,21 @@ async fn run_conn_case(env: &mut Option<Env>, case: &Value, rep: &mut Report) ->
         .map(|a| a.iter().map(|x| x.as_str().unwrap().to_string()).collect())
         .unwrap_or_default();
     let conn_kinds: Vec<String> = kinds.iter().filter(|k| CONN_KINDS.contains(&k.as_str())).cloned().collect();
-    let e = env.as_ref().unwrap();
+    // an endpoint close is permanent for the endpoint: such a case gets sockets of its own
+    let own = if close == "endpoint" { Some(Env::new(shared.certs.clone()).await?) } else { None };
+    let e = own.as_ref().unwrap_or(shared);
     let (ltp, ptp) = (tp_local(), tp_peer());
     let (ccfg, scfg) = if side == "client" {
         (e.certs.client(ltp.build()), e.certs.server(ptp.build()))
     } else {
         (e.certs.client(ptp.build()), e.certs.server(ltp.build()))
     };
-    let (c, s) = with_watchdog(WATCHDOG, connect_pair(&e.client, &e.server, ccfg, scfg))
-        .await
-        .ok_or("handshake watchdog")??;
+    let (c, s) = {
+        let _g = e.hs.lock().await;
+        with_watchdog(WATCHDOG, connect_pair(&e.client, &e.server, ccfg, scfg))
+            .await
+            .ok_or("handshake watchdog")??
+    };
     let (l, p) = if side == "client" { (c, s) } else { (s, c) };
     let lep = if side == "client" { e.client.clone() } else { e.server.clone() };
 
@@ -472,7 +541,7 @@ async fn run_conn_case(env: &mut Option<Env>, case: &Value, rep: &mut Report) ->
     for (i, (_, pr)) in probes.iter().enumerate() {
         out[i].sync_wakes = pr.wakes().saturating_sub(polled[i]);
     }
-    drive(&mut probes, &mut out, &mut polled).await;
+    drive(&mut probes, &mut out, &mut polled, watchdog(case)).await;
     let obs = judge(case, &close, &side, &out, rep);
     drop(probes);
     drop(keep);
@@ -480,23 +549,21 @@ async fn run_conn_case(env: &mut Option<Env>, case: &Value, rep: &mut Report) ->
     drop(p);
     drop(lep);
     drop(blackholes);
-    if close == "endpoint" {
-        // a closed endpoint refuses everything from now on: start over with fresh sockets
-        let certs = env.take().unwrap().shutdown().await;
-        *env = Some(Env::new(certs).await?);
+    if let Some(own) = own {
+        own.shutdown().await;
     }
     Ok(obs)
 }
 
 /// Two accepted_0rtt() waiters on one 0.5-RTT server connection, closed locally before the
 /// handshake can complete (everything happens without yielding to the connection driver).
-async fn run_0rtt_case(env: &mut Option<Env>, case: &Value, rep: &mut Report) -> Result<Value, String> {
+async fn run_0rtt_case(e: &Env, case: &Value, rep: &mut Problems) -> Result<Value, String> {
     let kinds: Vec<String> = case["blocked"]
         .as_array()
         .map(|a| a.iter().map(|x| x.as_str().unwrap().to_string()).collect())
         .unwrap_or_default();
-    let e = env.as_ref().unwrap();
     let addr = e.server.local_addr().map_err(|e| e.to_string())?;
+    let g = e.hs.lock().await;
     let connecting = e
         .client
         .connect(addr, "localhost", Some(e.certs.client(tp_peer().build())))
@@ -510,6 +577,7 @@ async fn run_0rtt_case(env: &mut Option<Env>, case: &Value, rep: &mut Report) ->
         .map_err(|e| format!("accept: {e}"))?
         .into_0rtt()
         .map_err(|_| "into_0rtt refused on the server side".to_string())?;
+    drop(g);
     let mut probes: Vec<(String, P)> = vec![];
     for k in &kinds {
         let c = sconn.clone();
@@ -543,7 +611,7 @@ async fn run_0rtt_case(env: &mut Option<Env>, case: &Value, rep: &mut Report) ->
     for (i, (_, pr)) in probes.iter().enumerate() {
         out[i].sync_wakes = pr.wakes().saturating_sub(polled[i]);
     }
-    drive(&mut probes, &mut out, &mut polled).await;
+    drive(&mut probes, &mut out, &mut polled, watchdog(case)).await;
     let obs = judge(case, "local", "server", &out, rep);
     drop(probes);
     drop(sconn);
@@ -552,9 +620,28 @@ async fn run_0rtt_case(env: &mut Option<Env>, case: &Value, rep: &mut Report) ->
     Ok(obs)
 }
 
+async fn run_case(env: &Env, case: Value) -> (Value, Result<Value, String>, Problems) {
+    let mut pr = Problems::default();
+    let zrtt = case["blocked"]
+        .as_array()
+        .map(|a| a.iter().any(|k| ZRTT_KINDS.contains(&k.as_str().unwrap_or(""))))
+        .unwrap_or(false);
+    let r = if zrtt {
+        run_0rtt_case(env, &case, &mut pr).await
+    } else {
+        run_conn_case(env, &case, &mut pr).await
+    };
+    (case, r, pr)
+}
+
+/// Cases wait on protocol timers (the drain period behind closed(), a watchdog for a predicted
+/// stranded future), so several run at once; each has its own connection.
+const CONCURRENCY: usize = 12;
+
 pub async fn run(cases: Vec<Value>, rep: &mut Report) {
-    let mut env = match Env::new(Certs::new()).await {
-        Ok(e) => Some(e),
+    use futures_util::StreamExt;
+    let env = match Env::new(Certs::new()).await {
+        Ok(e) => e,
         Err(e) => {
             rep.set("fatal", json!(e));
             return;
@@ -562,48 +649,35 @@ pub async fn run(cases: Vec<Value>, rep: &mut Report) {
     };
     let mut samples = vec![];
     let mut setup_failures = 0u64;
-    for case in cases {
-        rep.cases += 1;
-        let zrtt = case["blocked"]
-            .as_array()
-            .map(|a| a.iter().any(|k| ZRTT_KINDS.contains(&k.as_str().unwrap_or(""))))
-            .unwrap_or(false);
-        let r = if zrtt {
-            run_0rtt_case(&mut env, &case, rep).await
-        } else {
-            run_conn_case(&mut env, &case, rep).await
-        };
-        match r {
-            Ok(obs) => {
-                rep.steps += obs.as_array().map(|a| a.len() as u64).unwrap_or(0);
-                if samples.len() < 3 || case["verbose"].as_bool() == Some(true) {
-                    samples.push(json!({"case": case, "obs": obs}));
-                }
+    {
+        let envr = &env;
+        let mut results = futures_util::stream::iter(cases.into_iter().map(|c| run_case(envr, c))).buffered(CONCURRENCY);
+        while let Some((case, r, pr)) = results.next().await {
+            rep.cases += 1;
+            for (ty, sig, desc) in pr.0 {
+                rep.problem(&ty, sig, desc, &case, 0);
             }
-            Err(e) => {
-                setup_failures += 1;
-                rep.problem(
-                    "mismatch",
-                    json!({"site": "quic-wakers", "what": "setup"}),
-                    format!("the combination could not be constructed: {e}"),
-                    &case,
-                    0,
-                );
-                if env.is_none() {
-                    match Env::new(Certs::new()).await {
-                        Ok(e) => env = Some(e),
-                        Err(e) => {
-                            rep.set("fatal", json!(e));
-                            return;
-                        }
+            match r {
+                Ok(obs) => {
+                    rep.steps += obs.as_array().map(|a| a.len() as u64).unwrap_or(0);
+                    if samples.len() < 3 || case["verbose"].as_bool() == Some(true) {
+                        samples.push(json!({"case": case, "obs": obs}));
                     }
+                }
+                Err(e) => {
+                    setup_failures += 1;
+                    rep.problem(
+                        "mismatch",
+                        json!({"site": "quic-wakers", "what": "setup"}),
+                        format!("the combination could not be constructed: {e}"),
+                        &case,
+                        0,
+                    );
                 }
             }
         }
     }
     rep.set("setup_failures", json!(setup_failures));
     rep.set("samples", json!(samples));
-    if let Some(e) = env {
-        e.shutdown().await;
-    }
+    env.shutdown().await;
 }
